@@ -283,6 +283,18 @@ func (c *SpecCtx) ident(name string) Val {
 	if g, ok := c.st.ghost[name]; ok {
 		return specVal(g, x.ghostSorts[name])
 	}
+	// hidden byte position of the string iteration of this loop
+	if name == "iterpos" && c.fr != nil && c.loopHead != nil {
+		for _, in := range c.loopHead.Instrs {
+			if nx, ok := in.(*ssa.Next); ok {
+				if rng, ok := nx.Iter.(*ssa.Range); ok {
+					if v, ok := c.st.cells[cellKey{c.fr.id, iterAlloc(rng)}]; ok {
+						return v
+					}
+				}
+			}
+		}
+	}
 	// local variable of the frame
 	if c.fr != nil {
 		if v, ok := c.localVar(name); ok {
@@ -402,6 +414,10 @@ func (c *SpecCtx) localVar(name string) (Val, bool) {
 		// maybe a heap-allocated (escaping) local
 		if hv, ok2 := fr.heapLocal[pick]; ok2 {
 			et := pick.Type().Underlying().(*types.Pointer).Elem()
+			if at, isArr := et.Underlying().(*types.Array); isArr {
+				// a region holding an array stores the elements directly (see toDPtr)
+				return Val{S: "(select " + c.x.heap(c.st, at.Elem()) + " " + hv + ")", T: et}, true
+			}
 			return Val{S: c.x.heapLoad(c.st, et, hv, "0"), T: et}, true
 		}
 		return Val{}, false
